@@ -744,7 +744,7 @@ def static_part(ctx, rnd):
     byid = {c["id"]: c for c in cases}
     if bad:
         report_static(ctx, bad, byid, res)
-    active = sum(1 for c in cases if c["act"] for m in c["masks"] if c["act"][m])
+    active = len({(c["src"], m) for c in cases if c["act"] for m in c["masks"] if c["act"][m]})
     ctx.cov["static_programs"] = len(cases)
     ctx.cov["static_observations"] = nobs
     ctx.cov["static_planted_violations_checked"] = active
@@ -764,7 +764,7 @@ def report_static(ctx, bad, byid, res):
     for n in bad:
         groups.setdefault(n // 64, []).append(n % 64)
     recheck = []
-    for cid, masks in sorted(groups.items()):
+    for cid, masks in sorted(groups.items(), key=lambda kv: (len(byid[kv[0]]["src"]), kv[0])):   # simplest program first
         c = dict(byid[cid])
         c["masks"] = masks
         recheck.append(c)
@@ -924,7 +924,7 @@ def run(ctx):
     nruns, nfail = recursion_part(ctx, rnd)
     ctx.cov["evaluations"] = nobs + nruns
     ctx.cov["traces_validated_against_impl"] = nobs + nruns - len(ctx.violations)
-    ctx.cov["distinct_nontrivial"] = active + nfail
+    ctx.cov["distinct_nontrivial"] = active + nfail     # both counted over distinct (program text, options) pairs
     ctx.assumptions = [
         "Resolve.tla is written from doc/spec.md; the position of a violation is the first token or the operator token of the offending construct",
         "with GlobalReassign a use directly in the file block sees only earlier top-level bindings (documented in resolve.go, func use)",
